@@ -165,6 +165,24 @@ CHECKS = {
             "p=1, empty history, unproved; check_audit_parameters must reject injected invalid parameters.",
             "trusted: copy.deepcopy of NonnegMean objects (bound methods are re-bound to the copy)",
             "DESIGN.md section 4, C09"),
+    "C10": ("history monitor over recorded multi-round audit histories (redraw and continue variants run side by side on copies of one simulated election)",
+            "Exploration by runtime monitoring: 2-5 rounds of non-decreasing per-contest sizes (incl. a contest that finishes "
+            "early and grows later, unchanged rounds, full hand counts) are driven through the real consistent_sampling, "
+            "prep_comparison_sample, mvrs_to_data and set_p_values; recorded selections must be nested, every assertion's data "
+            "vector must be the previous one with observations appended, p-values must not increase and confirmations must "
+            "persist; the continued sample must equal the redrawn one in content, order and thresholds every round.",
+            "trusted: the simulator's no-style draw (first n cards in sample-number order); polling only without style",
+            "DESIGN.md section 4, C10"),
+    "C16": ("reference-model monitor: the documented hypothetical population is built independently and the real test run on it; first-crossing oracle; prefix, maxima and interleave monitors",
+            "Exploration by runtime monitoring: NonnegMean.sample_size is compared with the first crossing of the real test "
+            "on the pilot data tiled to N (non-constant pilots whose length does not divide N, every test/estimator, "
+            "random_order on and off); Assertion.find_sample_size with the documented comparison and polling populations; "
+            "simulation-based estimates with a crossing prefix must equal the crossing index for any reps/quantile/seed; "
+            "Contest/Audit estimates must be the largest per-assertion estimate (recorded by a contract); interleave_values "
+            "must return the requested counts.",
+            "trusted: numpy; int(1/r) spacing; rates passed explicitly; crossing of a prefix is read off a history that "
+            "continues beyond it",
+            "DESIGN.md section 4, C16"),
 }
 
 PENDING_REASON = ("check designed in DESIGN.md section 4 but not yet built in this session; "
